@@ -761,7 +761,7 @@ func genC14(r *simrt.Rand, tier string, idx uint64) *Plan {
 					if !killed {
 						cp.Ops = append(cp.Ops, Op{Kind: "kill", Addr: a})
 						// a few calls while the server is down
-						for k := 0; k < r.Intn(3); k++ {
+						for k := 0; k < r.Intn(5); k++ {
 							op := genTCall(r, 1)
 							op.Addr, op.Flags, op.Arg = a, 0, 0
 							cp.Ops = append(cp.Ops, op)
@@ -882,6 +882,35 @@ func checkC14(w *World, run *simrt.Run) {
 					w.Violate("C14.unreachable", "call-to-dead-server-not-prompt", fmt.Sprintf("%s: took %v of simulated time", descCall(c), c.ReturnT-c.InvokeT))
 				} else {
 					w.Probe("call-while-down-failed-promptly")
+				}
+			}
+		}
+	}
+	// while the server is away: each pooled connection may be found dead once (ErrShutdown); after
+	// that a sequential caller gets ErrDial, never the same dead connection again
+	if w.P.Params["sequential"] == 1 {
+		for a := range w.P.Servers {
+			for _, d := range downIv[a] {
+				shut := 0
+				var lastReturn uint64
+				for _, c := range w.Calls {
+					if c.Addr != a || !c.Returned {
+						continue
+					}
+					overlapped := c.Invoke < lastReturn
+					if c.Return > lastReturn {
+						lastReturn = c.Return
+					}
+					if overlapped || !(c.Invoke > d.from && c.Return < d.to) {
+						continue
+					}
+					if c.ErrKind == "shutdown" {
+						shut++
+						if shut > ts.effConns {
+							w.Violate("C14.unreachable", "dead-connection-handed-out-again-while-down:"+c.Form, fmt.Sprintf("%s: ErrShutdown number %d while the server was away, MaxConnsPerHost is effectively %d: a connection already known dead was used again instead of reporting the refused dial", descCall(c), shut, ts.effConns))
+							break
+						}
+					}
 				}
 			}
 		}
